@@ -34,12 +34,14 @@ def build_http(entries):
         C.write_if_changed(os.path.join(HTTP, "src", "generated.rs"), "\n".join(src))
         env = dict(C.ENV)
         env["CARGO_TARGET_DIR"] = TARGET_HTTP
+        marker, hsh = C.ensure_fresh_repo_build(HTTP, TARGET_HTTP, env=env)
         rc, out = C.sh(["cargo", "build", "--offline", "--quiet"], cwd=HTTP, timeout=3000, env=env)
         if rc != 0:
             open(lock, "w").write(open(os.path.join(C.REPO, "Cargo.lock")).read())
             rc, out = C.sh(["cargo", "build", "--offline", "--quiet"], cwd=HTTP, timeout=3000, env=env)
         if rc != 0:
             raise C.Broken("http harness does not build:\n" + out[-5000:])
+        C.mark_fresh(marker, hsh)
     return os.path.join(TARGET_HTTP, "debug", "verif-http"), sel
 
 
